@@ -247,4 +247,45 @@ for tree in trees():
             rep.fail(f"raised::{mode}::{shape_name(t)}", f"tree {tree} ({mode}): {type(got).__name__}: {got}", inp)
         elif got != want:
             rep.fail(f"selection::{mode}::{shape_name(t)}", f"tree {tree} written as {mode}: concluded {got}, reference {want}", inp)
+# ---- the base rule is a bare predicate / symbolic function call (no comparison): its truth still decides which branch is taken
+from krrood.entity_query_language.predicate import HasType, symbolic_function
+
+
+@dataclass(eq=False)
+class SubItem(Item):
+    pass
+
+
+@symbolic_function
+def is_even(v):
+    return v % 2 == 0
+
+
+for label, mk_base, holds_base in (("HasType(x, SubItem)", lambda x: HasType(x, SubItem), lambda it: isinstance(it, SubItem)),
+                                   ("is_even(x.a)", lambda x: is_even(x.a), lambda it: it.a % 2 == 0)):
+    for branch in ("alternative", "next_rule", "refinement"):
+        items = [SubItem(0), Item(1), SubItem(2), Item(3), SubItem(5)]
+        x = let(Item, items)
+        q = an(entity(v := inference(Base)(), mk_base(x)))
+        with q:
+            Add(v, inference(KINDS[0])(item=x))
+            with {"alternative": alternative, "next_rule": next_rule, "refinement": refinement}[branch](x.a >= 2):
+                Add(v, inference(KINDS[1])(item=x))
+        st, got = guarded(lambda: sorted((int(type(r).__name__[1:]), r.item.a) for r in q.evaluate()))
+        want = []
+        for it in items:
+            b, c = holds_base(it), it.a >= 2
+            if branch == "alternative":
+                want += [(0, it.a)] if b else ([(1, it.a)] if c else [])
+            elif branch == "next_rule":
+                want += ([(0, it.a)] if b else []) + ([(1, it.a)] if c else [])
+            else:
+                want += ([(1, it.a)] if c else [(0, it.a)]) if b else []
+        want = sorted(want)
+        rep.case(("predicate-base", label, branch), nontrivial=True, sample={"base": label, "branch": branch})
+        inp = {"base": label, "branch": branch}
+        if st == "exc":
+            rep.fail(f"raised::predicate-base::{branch}", f"base rule {label} with a {branch}: {type(got).__name__}: {got}", inp)
+        elif got != want:
+            rep.fail(f"selection::predicate-base::{branch}", f"base rule {label} with a {branch}(x.a >= 2): concluded {got}, reference {want}", inp)
 rep.finish(exhaustive=False)
